@@ -300,6 +300,8 @@ impl Driver {
                             key.carrier
                                 .push_multishot(create_result(entry.result()), extra);
                         }
+                        #[cfg(compio_verif)]
+                        crate::verif::log(crate::verif::Kind::Multi, key.verif_id());
                         key.wake_by_ref();
                     } else {
                         self.in_flight.remove(&(key as usize));
@@ -344,6 +346,8 @@ impl Driver {
         let user_data = key.as_raw();
         let entry = entry.user_data(user_data as _);
         self.push_raw(entry)?; // if push failed, do not leak the key. Drop it upon return.
+        #[cfg(compio_verif)]
+        crate::verif::log(crate::verif::Kind::Submit, key.verif_id());
         self.in_flight.insert(user_data);
         key.into_raw();
         Ok(())
@@ -421,9 +425,17 @@ impl Driver {
         let waker = self.waker();
         let completed = self.completed_tx.clone();
         // SAFETY: we're submitting into the driver, so it's safe to freeze here.
+        #[cfg(compio_verif)]
+        let verif_id = key.verif_id();
+        #[cfg(compio_verif)]
+        crate::verif::log(crate::verif::Kind::PoolSubmit, verif_id);
         let mut key = unsafe { key.freeze() };
         let mut closure = move || {
+            #[cfg(compio_verif)]
+            crate::verif::log_pool(crate::verif::Kind::PoolEnter, verif_id);
             let res = catch_unwind_io(AssertUnwindSafe(|| key.as_mut().carrier.call_blocking()));
+            #[cfg(compio_verif)]
+            crate::verif::log_pool(crate::verif::Kind::PoolLeave, verif_id);
             let _ = completed.send(Entry::new(key.into_inner(), res));
             waker.wake();
         };
@@ -513,6 +525,8 @@ impl Drop for Driver {
         // `malloc_consolidate(): unaligned fastbin chunk detected` /
         // `corrupted double-linked list` during thread shutdown.
         unsafe { ManuallyDrop::drop(&mut self.inner) };
+        #[cfg(compio_verif)]
+        crate::verif::log(crate::verif::Kind::RingClosed, 0);
 
         // Free remaining in-flight keys. Safe now that the kernel is done.
         for user_data in self.in_flight.drain() {
